@@ -93,7 +93,8 @@ class State:
             res = ("delivered", self.cp.deliver("B"))
         elif kind == "ext":
             code, n = ev[1], ev[2]
-            n = min(n, a.out_window_size, self.remaining)
+            # an honest peer: within its window and within the maximum packet size it was told
+            n = min(n, a.out_window_size, self.remaining, self.P)
             if n <= 0:
                 res = ("no-window",)
             else:
